@@ -187,6 +187,7 @@ func check(c Case) (o pbt.Outcome) {
 	}
 	// T1: generated models ignore unknown properties (non-strict mode), i.e. they do
 	// not enforce `additionalProperties: false`; the reference sees the schema without it.
+	origRoot, _ := specgen.Parse(c.Spec)
 	root, _ := specgen.Parse(c.Spec)
 	eraseAPFalse(root)
 	// T3: positions holding a property-less object may or may not be validated:
@@ -329,6 +330,8 @@ func check(c Case) (o pbt.Outcome) {
 			switch {
 			case traversesInlineAllOf(root, s, firstRefErr):
 				sig = "C02|gen-accepts-invalid|region:property-with-allOf"
+			case endsInRefToPrimitive(origRoot, in.Def, firstRefErr):
+				sig = "C02|gen-accepts-invalid|region:ref-to-primitive-definition-below-top-level"
 			case kw == "format" && (mut == "zero" || strings.HasPrefix(mut, "add-zero-") || mut == "valid-by-construction" || mut == "empty-array"):
 				sig = "C02|gen-accepts-invalid|format|empty-string"
 			case kw == "format":
@@ -443,6 +446,53 @@ func traversesInlineAllOf(root J, s J, errPath string) bool {
 	return depth > 0 && cur["allOf"] != nil
 }
 
+// endsInRefToPrimitive: the violated position is a map value, array item or nested
+// property declared as a $ref to a non-object definition (named primitive / array
+// type), two or more steps below the definition under test.
+func endsInRefToPrimitive(root J, def string, errPath string) bool {
+	defs, _ := root["definitions"].(J)
+	s, _ := defs[def].(J)
+	p := errPath
+	if i := strings.LastIndex(p, ": "); i >= 0 {
+		p = p[:i]
+	}
+	p = strings.TrimPrefix(p, "body")
+	cur := s
+	steps := 0
+	viaRefToPrim := false
+	for _, m := range rePathTok.FindAllStringSubmatch(p, -1) {
+		rs := refmodel.Resolve(root, cur)
+		var next J
+		switch {
+		case m[1] != "":
+			next = findProp(root, rs, m[1], 0)
+		case m[2] != "":
+			next, _ = rs["items"].(J)
+		case m[3] != "":
+			ms, _ := rs["allOf"].([]any)
+			idx := 0
+			fmt.Sscanf(m[3], "%d", &idx)
+			if idx < len(ms) {
+				next, _ = ms[idx].(J)
+			}
+			steps--
+		}
+		if next == nil {
+			return false
+		}
+		steps++
+		viaRefToPrim = false
+		if r, ok := next["$ref"].(string); ok {
+			t, _ := defs[strings.TrimPrefix(r, "#/definitions/")].(J)
+			if t != nil && t["type"] != "object" && t["properties"] == nil && t["allOf"] == nil {
+				viaRefToPrim = true
+			}
+		}
+		cur = next
+	}
+	return viaRefToPrim && steps >= 1
+}
+
 func findProp(root J, s J, name string, depth int) J {
 	if depth > 10 {
 		return nil
@@ -511,40 +561,47 @@ func requiredOnEmptyObject(doc any, msg string) bool {
 		if i < 0 {
 			continue
 		}
-		cur := doc
-		ok := true
-		for _, step := range strings.Split(strings.TrimSpace(line[:i]), ".") {
-			if arr, isArr := cur.([]any); isArr {
-				idx := -1
-				fmt.Sscanf(step, "%d", &idx)
-				if idx < 0 || idx >= len(arr) {
-					ok = false
-					break
+		steps := strings.Split(strings.TrimSpace(line[:i]), ".")
+		// generated messages sometimes repeat leading path components: try every suffix
+		for start := 0; start < len(steps); start++ {
+			if v, ok := walkDoc(doc, steps[start:]); ok {
+				if obj, isObj := v.(map[string]any); isObj {
+					// empty, or holding only the undeclared member the mutator adds (dropped on decode)
+					_, unk := obj["zzUnknownProp"]
+					if len(obj) == 0 || (len(obj) == 1 && unk) {
+						return true
+					}
 				}
-				cur = arr[idx]
-				continue
-			}
-			obj, isObj := cur.(map[string]any)
-			if !isObj {
-				ok = false
 				break
-			}
-			next, has := obj[step]
-			if !has {
-				ok = false
-				break
-			}
-			cur = next
-		}
-		if obj, isObj := cur.(map[string]any); ok && isObj {
-			// empty, or holding only the undeclared member the mutator adds (dropped on decode)
-			_, unk := obj["zzUnknownProp"]
-			if len(obj) == 0 || (len(obj) == 1 && unk) {
-				return true
 			}
 		}
 	}
 	return false
+}
+
+func walkDoc(doc any, steps []string) (any, bool) {
+	cur := doc
+	for _, step := range steps {
+		if arr, isArr := cur.([]any); isArr {
+			idx := -1
+			fmt.Sscanf(step, "%d", &idx)
+			if idx < 0 || idx >= len(arr) {
+				return nil, false
+			}
+			cur = arr[idx]
+			continue
+		}
+		obj, isObj := cur.(map[string]any)
+		if !isObj {
+			return nil, false
+		}
+		next, has := obj[step]
+		if !has {
+			return nil, false
+		}
+		cur = next
+	}
+	return cur, true
 }
 
 // closureText is the JSON text of a schema and of every definition it references.
